@@ -11,8 +11,8 @@ LEVEL_NOTE = (
     "Trusted: Coq 8.16.1 kernel incl. vm_compute (no native_compute); theorems are "
     "closed under the global context unless evidence lists an axiom; the hand-written "
     "Gallina model is tied to /repo by the executable correspondence run of this check "
-    "(and, where listed, by definitions regenerated from the Python source by "
-    "harness/py2gallina.py and proved equal to the hand kernel); CPython and the libraries "
+    "(for C03 also by a normalising AST diff of every sync/async method pair of the current "
+    "source, harness/c03_twins.py); no extraction; CPython and the libraries "
     "liquid2 calls are modelled, not verified. See DESIGN.md §8."
 )
 
@@ -75,7 +75,7 @@ def main() -> None:
         }],
         "checks": checks,
         "not_applicable": [{"property_id": p, "reason": PENDING_REASON} for p in props if p not in CHECKS],
-        "notes": "fix: commits in /repo are listed in known_findings.json (status fixed).",
+        "notes": "fix: commits in /repo are listed in known_findings.json and known_findings.d/*.json (status fixed); genuine defects kept are listed there with status known and printed as KNOWN-FINDING lines.",
     }
     (VERIF / "MANIFEST.json").write_text(json.dumps(man, indent=1) + "\n")
 
